@@ -268,114 +268,117 @@ theorem streamLoop_good {N : Nat} (valid : Bool) (k : Bytes) (remaining : Nat) :
   induction fuel with
   | zero => intro idx db bs h; omega
   | succ f ih =>
-    intro idx db bs h
+    intro idx db bs h hN
     rw [streamLoop]
     split
-    · exact good_ok _ _ _ _ (Nat.le_refl _)
+    · exact good_ok _ _ _ (Nat.le_refl _)
     · split
-      · exact good_ok _ _ _ _ (Nat.le_refl _)
+      · exact good_ok _ _ _ (Nat.le_refl _)
       · cases bs with
-        | nil => exact good_err _ _ _ (by simp)
+        | nil => exact good_err _ _ (by simp) (by simp)
         | cons b t =>
           -- at least the first string's length byte is consumed before the recursive call
+          simp only [List.length_cons] at hN h
           refine Good.mono (n := t.length) ?_ (by simp)
-          have h0 : Good (readString (b :: t)) t.length := by simpa using readString_good (b :: t)
+          have h0 : Good N (readString (b :: t)) t.length := by
+            simpa using readString_good (N := N) (b :: t) (by simp; omega)
           apply Good.bind h0
           intro idStr r1 hr1
-          rd (readString_good r1)
+          rd (readString_good r1 (by omega))
           dsimp only
           split
-          · exact good_ok _ _ _ _ (by omega)
-          · rd (readPairs_good _ _)
+          · exact good_ok _ _ _ (by omega)
+          · rd (readPairs_good _ _ (by omega))
             rename_i r3 hr3
-            exact (ih _ _ r3 (by simp at h; omega)).mono (by omega)
+            exact (ih _ _ r3 (by omega) (by omega)).mono (by omega)
 
-theorem loadTyped_good (fix : Fix) (valid : Bool) (db : Db) (ty : Nat) (dl : Option Nat) (bs : Bytes) :
-    Good (loadTyped fix valid db ty dl bs) bs.length := by
+theorem loadTyped_good {N : Nat} (fix : Fix) (valid : Bool) (db : Db) (ty : Nat) (dl : Option Nat) (bs : Bytes)
+    (hN : bs.length ≤ N) : Good N (loadTyped fix valid db ty dl bs) bs.length := by
   unfold loadTyped
   split
-  · rd (readString_good bs)
-    rd (readString_good _)
+  · rd (readString_good bs hN)
+    rd (readString_good _ (by omega))
     eng (setValue_nofuel _ _ _)
-    exact good_ok _ _ _ _ (by omega)
+    exact good_ok _ _ _ (by omega)
   · split
-    · rd (readString_good bs)
+    · rd (readString_good bs hN)
       rd (readLen_good _)
       split
-      · rd (readString_good _)
+      · rd (readString_good _ (by omega))
         rd (readFixed_good 8 _)
         eng (zadd_nofuel _ _ _ _ _)
-        rd (readZPairs_good _ _)
+        rd (readZPairs_good _ _ (by omega))
         eng (expireOpt_nofuel _ _ _ _)
-        exact good_ok _ _ _ _ (by omega)
+        exact good_ok _ _ _ (by omega)
       · eng (expireOpt_nofuel _ _ _ _)
-        exact good_ok _ _ _ _ (by omega)
+        exact good_ok _ _ _ (by omega)
     · split
-      · rd (readString_good bs)
+      · rd (readString_good bs hN)
         rd (readLen_good _)
         split
-        · rd (readString_good _)
+        · rd (readString_good _ (by omega))
           split
           · eng (nofuel_ite _ _ _ (setValue_nofuel _ _ _) (nofuel_ok _))
             rename_i r2' hr2'
-            rd (streamLoop_good _ _ _ _ _ _ r2' (Nat.lt_succ_self _))
+            rd (streamLoop_good _ _ _ _ _ _ r2' (Nat.lt_succ_self _) (by omega))
             eng (expireOpt_nofuel _ _ _ _)
-            exact good_ok _ _ _ _ (by omega)
+            exact good_ok _ _ _ (by omega)
           · eng (rpush_nofuel _ _ _ _)
-            rd (readStrings_good _ _)
+            rd (readStrings_good _ _ (by omega))
             eng (expireOpt_nofuel _ _ _ _)
-            exact good_ok _ _ _ _ (by omega)
+            exact good_ok _ _ _ (by omega)
         · eng (expireOpt_nofuel _ _ _ _)
-          exact good_ok _ _ _ _ (by omega)
+          exact good_ok _ _ _ (by omega)
       · split
-        · rd (readString_good bs)
+        · rd (readString_good bs hN)
           rd (readLen_good _)
-          rd (readStrings_good _ _)
+          rd (readStrings_good _ _ (by omega))
           eng (sadd_nofuel _ _ _ _)
           eng (expireOpt_nofuel _ _ _ _)
-          exact good_ok _ _ _ _ (by omega)
+          exact good_ok _ _ _ (by omega)
         · split
-          · rd (readString_good bs)
+          · rd (readString_good bs hN)
             rd (readLen_good _)
-            rd (readPairs_good _ _)
+            rd (readPairs_good _ _ (by omega))
             eng (hset_nofuel _ _ _ _)
             eng (expireOpt_nofuel _ _ _ _)
-            exact good_ok _ _ _ _ (by omega)
-          · exact good_err _ _ _ (by simp)
+            exact good_ok _ _ _ (by omega)
+          · exact good_err _ _ (by simp) (by simp)
 
-theorem loadExpiring_good (fix : Fix) (now : Nat) (valid : Bool) (db : Db) (ty expiry : Nat) (bs : Bytes) :
-    Good (loadExpiring fix now valid db ty expiry bs) bs.length := by
+theorem loadExpiring_good {N : Nat} (fix : Fix) (now : Nat) (valid : Bool) (db : Db) (ty expiry : Nat) (bs : Bytes)
+    (hN : bs.length ≤ N) : Good N (loadExpiring fix now valid db ty expiry bs) bs.length := by
   unfold loadExpiring
   split
-  · rd (loadTyped_good _ _ _ _ _ bs)
-    exact good_ok _ _ _ _ (by omega)
+  · rd (loadTyped_good _ _ _ _ _ bs hN)
+    exact good_ok _ _ _ (by omega)
   · split
-    · rd (loadTyped_good _ _ _ _ _ bs)
+    · rd (loadTyped_good _ _ _ _ _ bs hN)
       exact good_lift _ _ _ (nofuel_ite _ _ _ (nofuel_ok _) nofuel_invalid) (by omega)
-    · rd (loadTyped_good _ _ _ _ _ bs)
-      exact good_ok _ _ _ _ (by omega)
+    · rd (loadTyped_good _ _ _ _ _ bs hN)
+      exact good_ok _ _ _ (by omega)
 
 /-! ### the opcode loop and the whole file -/
 
-theorem loadLoop_good (fix : Fix) (now : Nat) :
-    ∀ (fuel cur : Nat) (s : Store) (bs : Bytes), bs.length < fuel →
-      Good (loadLoop fix now fuel cur s bs) bs.length := by
+theorem loadLoop_good {N : Nat} (fix : Fix) (now : Nat) :
+    ∀ (fuel cur : Nat) (s : Store) (bs : Bytes), bs.length < fuel → bs.length ≤ N →
+      Good N (loadLoop fix now fuel cur s bs) bs.length := by
   intro fuel
   induction fuel with
   | zero => intro cur s bs h; omega
   | succ f ih =>
-    intro cur s bs h
+    intro cur s bs h hN
     rw [loadLoop]
     cases bs with
-    | nil => exact good_err _ _ _ (by simp)
+    | nil => exact good_err _ _ (by simp) (by simp)
     | cons b t =>
+      simp only [List.length_cons] at hN h
       refine Good.mono (n := t.length) ?_ (by simp)
       simp only [readByte, Res.bind_ok, Res.pre_nil]
-      have hf : ∀ (c : Nat) (s' : Store) (r : Bytes), r.length ≤ t.length → Good (loadLoop fix now f c s' r) t.length :=
-        fun c s' r hr => (ih c s' r (by simp at h; omega)).mono hr
+      have hf : ∀ (c : Nat) (s' : Store) (r : Bytes), r.length ≤ t.length → Good N (loadLoop fix now f c s' r) t.length :=
+        fun c s' r hr => (ih c s' r (by omega) (by omega)).mono hr
       split
       · rd (readFixed_good 8 t)
-        exact good_ok _ _ _ _ (by omega)
+        exact good_ok _ _ _ (by omega)
       · split
         · rd (readLen_good t)
           exact hf _ _ _ (by omega)
@@ -384,32 +387,32 @@ theorem loadLoop_good (fix : Fix) (now : Nat) :
             rd (readLen_good _)
             exact hf _ _ _ (by omega)
           · split
-            · rd (readString_good t)
-              rd (readString_good _)
+            · rd (readString_good t (by omega))
+              rd (readString_good _ (by omega))
               exact hf _ _ _ (by omega)
             · split
               · rd (readFixed_good 8 t)
                 rd (readByte_good _)
-                rd (loadExpiring_good _ _ _ _ _ _ _)
+                rd (loadExpiring_good _ _ _ _ _ _ _ (by omega))
                 exact hf _ _ _ (by omega)
               · split
                 · rd (readFixed_good 4 t)
                   rd (readByte_good _)
-                  rd (loadExpiring_good _ _ _ _ _ _ _)
+                  rd (loadExpiring_good _ _ _ _ _ _ _ (by omega))
                   exact hf _ _ _ (by omega)
-                · rd (loadTyped_good _ _ _ _ _ t)
+                · rd (loadTyped_good _ _ _ _ _ t (by omega))
                   exact hf _ _ _ (by omega)
 
-theorem loadInto_good (fix : Fix) (s : Store) (bs : Bytes) (now : Nat) : Good (loadInto fix s bs now) bs.length := by
+theorem loadInto_good (fix : Fix) (s : Store) (bs : Bytes) (now : Nat) : Good bs.length (loadInto fix s bs now) bs.length := by
   unfold loadInto
   rd (readFixed_good 5 bs)
   split
-  · exact good_err _ _ _ (by simp)
+  · exact good_err _ _ (by simp) (by simp)
   · rd (readFixed_good 4 _)
     split
-    · exact good_err _ _ _ (by simp)
+    · exact good_err _ _ (by simp) (by simp)
     · rename_i v r' hr' hv
-      exact (loadLoop_good fix now _ 0 s r' (Nat.lt_succ_self _)).mono (by omega)
+      exact (loadLoop_good fix now _ 0 s r' (Nat.lt_succ_self _) (by omega)).mono (by omega)
 
 /-- The recursion budgets of the model are never the reason for an answer: on EVERY byte string the
     loader model ends in `ok` or in one of the loader's own errors. -/
@@ -420,6 +423,16 @@ theorem decSnapshotT_never_fuel (fix : Fix) (bs : Bytes) (now : Nat) (al : List 
 /-- … and it never reads past the end: what is left over is a suffix no longer than the input. -/
 theorem decSnapshotT_rest_le (fix : Fix) (bs : Bytes) (now : Nat) (s : Store) (r : Bytes) (al : List Nat)
     (h : decSnapshotT fix bs now = .ok s r al) : r.length ≤ bs.length :=
-  (loadInto_good fix [] bs now).2 s r al h
+  (loadInto_good fix [] bs now).2.1 s r al h
+
+/-- Every allocation that is followed by a successful read is at most the size of the file … -/
+theorem decSnapshotT_allocs_le (fix : Fix) (bs : Bytes) (now : Nat) :
+    ∀ a ∈ (decSnapshotT fix bs now).allocs, a ≤ bs.length :=
+  (loadInto_good fix [] bs now).2.2.1
+
+/-- … and when `read_string` fails, fewer bytes than the file holds were still available. -/
+theorem decSnapshotT_short_avail_le (fix : Fix) (bs : Bytes) (now : Nat) (w v : Nat) (al : List Nat)
+    (h : decSnapshotT fix bs now = .err (.shortString w v) al) : v ≤ bs.length :=
+  (loadInto_good fix [] bs now).2.2.2 w v al h
 
 end Ferrous.Rdb
